@@ -1,6 +1,7 @@
 package codec
 
 import (
+	"bufio"
 	"bytes"
 	"errors"
 	"fmt"
@@ -65,6 +66,11 @@ func (e *c20entry) frame() frame.Frame {
 		return &frame.V2Frame{SequenceNumber: 1, SystemID: 1, ComponentID: 1}
 	}
 	fr := toFrame(e.spec)
+	if f2, ok := fr.(*frame.V2Frame); ok && !e.spec.Signed && len(e.image)%3 == 0 {
+		// an unsigned frame object that still carries signature fields (not part of its encoding)
+		f2.Signature = &frame.V2Signature{0xFD, 0xFE, 0xFD, 0xFE, 0xFD, 0xFE}
+		f2.SignatureLinkID, f2.SignatureTimestamp = 0xFD, 0xFEFEFEFEFEFE
+	}
 	if (e.mi != nil && e.bad == "") || e.bad == "not-in-dialect" || e.bad == "no-dialect" {
 		m := e.val.Interface().(message.Message)
 		switch ff := fr.(type) {
@@ -148,7 +154,13 @@ func c20readBack(rep *vh.Report, g *c20gen, img []byte, want []*c20entry, what s
 	guard(rep, "what=panic", func() interface{} {
 		return map[string]interface{}{"image": vh.Hex(img[:min(len(img), 400)]), "case": what}
 	}, func() {
-		rd := &tlog.Reader{ByteReader: &scriptReader{data: img, every: 1 + g.r.Intn(600), errAt: -1}, DialectRW: g.drw()}
+		var src io.Reader = &scriptReader{data: img, every: 1 + g.r.Intn(600), errAt: -1}
+		if g.r.Chance(1, 3) {
+			// the caller hands over its own buffered reader, of any size
+			src = bufio.NewReaderSize(src, []int{16, 64, 256, 511, 512, 4096}[g.r.Intn(6)])
+			rep.Count("logs_read_through_caller_bufio", 1)
+		}
+		rd := &tlog.Reader{ByteReader: src, DialectRW: g.drw()}
 		if err := rd.Initialize(); err != nil {
 			rep.Violation("what=roundtrip", "tlog.Reader.Initialize failed on a valid configuration: "+err.Error(), nil)
 			return
